@@ -478,6 +478,8 @@ class Parser(ExprParser):
                 ns = self.namespace.unqualified_lookup(self.token.value)
                 if ns:
                     ns, ns_name = self.nested_namespace(ns)
+                    if not hasattr(ns, "typemap"):
+                        self.error_msg("'{}' is not a type", ns_name)
                     node.specifier.append(ns_name)
                     self.parse_template_arguments(node)
                     if (
